@@ -452,13 +452,13 @@ AppGetSession(s) ==
 -----------------------------------------------------------------------------
 (* Internal actions *)
 
-\* a blocked poll (first waiter of its queue) is woken by a put
+\* a blocked poll is woken by a put.  Which of several waiters of one queue gets the item is
+\* not fixed: a waiter that was woken and found the queue empty again re-queues behind the others
 PollWake(i) ==
     /\ i \in 1..Len(polls)
     /\ LET p == polls[i]
            s == p.s
        IN /\ g.ss[s].q # <<>>
-          /\ \A j \in 1..(i - 1) : polls[j].s # s
           /\ p.kind = "http"
           /\ LET d == Drain(g.ss[s].q)
                  g1 == DoDrain(g, s)
@@ -659,7 +659,6 @@ WriterWake(i) ==
     /\ polls[i].kind = "writer"
     /\ LET s == polls[i].s
        IN /\ g.ss[s].q # <<>>
-          /\ \A j \in 1..(i - 1) : polls[j].s # s
           /\ WriterRun(s, RemoveAt(polls, i))
     /\ UNCHANGED <<now, psleep, wsr, wsin, joiners, mon, nreq>>
 
